@@ -93,9 +93,20 @@ def real():
     return PatternRewriter, convert_generic_body_to_phs, append_to_abstract_graph, decode_abstract_graph
 
 
+_parsed: dict = {}
+
+
 def generic_of(text):
-    m = parse(ctx(), text)
-    m.verify()
+    """A fresh copy of the kernel's module (parsed once per text, cloned per request: the real encoder gets an op that no
+    earlier call could have touched)."""
+    m0 = _parsed.get(text)
+    if m0 is None:
+        if len(_parsed) > 64:
+            _parsed.clear()
+        m0 = parse(ctx(), text)
+        m0.verify()
+        _parsed[text] = m0
+    m = m0.clone()
     g = [op for op in m.walk() if op.name == "linalg.generic"][0]
     return m, g
 
@@ -190,9 +201,10 @@ def run_history(kernels, klass, vec_seed, res, n_random=200, max_corner=150):
                 break
             try:
                 abstract.verify()
-            except Exception:  # noqa: BLE001
+            except Exception as e:  # noqa: BLE001
                 R.reject(res, "verify-failed-after-append")
-                R.bump(res, "history_ended_by_rejected_merge")
+                R.bump(res, "history_ended_by_rejected_merge" + ("" if conf and judged_class else ":" + ("nonconforming" if not conf else klass)))
+                R.seen(res, "verify_failures_after_append", f"{klass}: {[G.skeleton(k) for k in kernels[: step + 1]]}: {str(e)[:160]}", cap=8)
                 break
             if not conf:
                 R.bump(res, "repo:nonconforming_kernel_accepted_by_merge")
@@ -273,8 +285,9 @@ def run_history(kernels, klass, vec_seed, res, n_random=200, max_corner=150):
                 continue
             bad = None
             n = 0
+            filler = [S.random_value(rng, t) for t in all_types]  # unused block arguments: any value
             for vec in S.input_vectors(rng, ptypes, n_random, max_corner):
-                full = [S.random_value(rng, t) for t in all_types]
+                full = list(filler)
                 for pos, x in zip(used, vec):
                     full[pos] = x
                 try:
@@ -342,7 +355,26 @@ def run_history(kernels, klass, vec_seed, res, n_random=200, max_corner=150):
     return out
 
 
+K_REPEAT = "choose-region-collapses-repeated-operand"
+
+
+def has_repeated_operand(kernels) -> bool:
+    return any(o[0] == o[1] for k in kernels for _, o in k["ops"])
+
+
 def attribute(v):
+    """Known-finding attribution: structural predicate on the history + counterfactual re-run."""
+    case = v.get("case") or {}
+    if v["kind"] in ("decoded-pe-computes-different-function",) and case.get("kernels"):
+        step = (v.get("info") or {}).get("step", len(case["kernels"]) - 1)
+        # predicate: a kernel merged at or before the failing step contains an operation that reads the same value twice.
+        if has_repeated_operand(case["kernels"][: step + 1]):
+            from vf.counterfactual.phs_cf import positional_choose_regions
+
+            with positional_choose_regions():
+                again = replay(case)
+            if not again:
+                return K_REPEAT
     return None
 
 
